@@ -8,6 +8,8 @@ import atexit
 import logging
 from typing import Dict
 
+import json
+
 import orjson
 
 logging_seen_warnings: Dict[int, int] = {}
@@ -59,7 +61,11 @@ def add_logging_level(level_name, level_num, method_name=None):
             try:
                 message = orjson.dumps(message)
             except:
-                message = str(message)
+                # keep the message a JSON object so the formatter can still sanitise it
+                try:
+                    message = json.dumps(message, default=str)
+                except Exception:
+                    message = str(message)
         # not just the json decoder outputs in bytes, make it a string
         if isinstance(message, bytes):
             message = message.decode()
